@@ -264,6 +264,8 @@ impl Instruction {
 
 impl Exec for Instruction {
     fn exec(&self, interpreter: &mut Interpreter) -> ExecResult {
+        #[cfg(simplesl_verif)]
+        simplesl_verif_seams::fuel::step();
         match_any! { self,
             Self::Variable(var) => Ok(var.clone()),
             Self::LocalVariable(ident, _) => interpreter
